@@ -88,6 +88,9 @@ pub const NOBODY: AckId = (usize::MAX, 0);
 pub enum Res {
     /// a write call returned: Ok(ack) or Err (send error / shutting down)
     Write { ok: bool },
+    /// the call panicked on a documented precondition before doing anything (a put_or_update
+    /// without a value found the key absent): it had no effect
+    Refused,
     Read { vals: Vec<Option<u64>>, complete: bool },
     Weight(i64),
     Stats(Stats),
@@ -146,6 +149,8 @@ pub enum Item {
     FinalRead { kind: ReadKind, key: u32, val: Option<u64> },
     Obs(Obs),
     Phase(String),
+    /// epilogue probe (C07): a put of a key that read as absent at quiescence, and its status
+    FinalPut { key: u32, st: St },
 }
 
 /// Raw item as logged during the run (acknowledgement identities still memory addresses).
